@@ -15,7 +15,7 @@ COMPONENTS_REAL = ['controller_nonMPI, Step, Level', 'generic_implicit, explicit
 COMPONENTS_STUB = ['none of pySDC; reference model = dense collocation solve in the harness', 'sim/massproblem.TwoPartDahlquist: harness-owned problem class for the multi_implicit sweeper']
 ASSUMPTIONS = ['linear (affine) problems only: A and b(t) are probed from a shadow instance', 'the bound uses the actual defect recomputed by the harness at post_step, so it holds for converged and budget-limited steps alike',
                'multi_implicit is driven on a harness-owned linear problem with two implicit parts (sim/massproblem.TwoPartDahlquist)', 'controller_MPI flavour: C08']
-PROBES = ['step_converged_to_tolerance', 'step_not_converged_budget', 'soft_add', 'soft_garbage']
+PROBES = ['step_converged_to_tolerance', 'step_not_converged_budget', 'soft_add', 'soft_garbage', 'fixed_point_probe']
 
 
 def plan(tier):
@@ -25,14 +25,22 @@ def plan(tier):
 
 
 def generate(seed, tier, index):
-    return physics.gen_config(rng_for(seed, PROP, index))
+    r = rng_for(seed, PROP, index)
+    sc = physics.gen_config(r)
+    if r.random() < 0.35:
+        # fixed-point probe (a soft "fault" that puts the first step of a block onto its fine collocation solution before an iteration)
+        cfg = sc['config']
+        nb = max(1, int(round((cfg['run']['Tend'] - cfg['run']['t0']) / (cfg['P'] * cfg['level']['dt']))))
+        sc['faults']['soft'].append({'block': r.randrange(nb), 'slot': 0, 'level': 0, 'iter': r.randint(1, min(cfg['step']['maxiter'], 3)), 'event': 'pre_iteration',
+                                     'node': 1, 'kind': 'exact', 'rel': 0.0, 'seed': 0})
+    return sc
 
 
 def execute(sc):
     res, log = Result(), EventLog()
     tr = blocksim.run(sc, res, log)
     oracles.oracle_c01(tr, sc)
-    for k in ('soft_add', 'soft_garbage'):
+    for k in ('soft_add', 'soft_garbage', 'soft_exact'):
         if res['faults'].get(k):
             res.probe(k)
     cfg = sc['config']
